@@ -18,7 +18,7 @@ fn arg_val(args: &[String], name: &str) -> Option<String> {
 }
 
 /// Execute one case (a JSON object with `runs`, or `hist`), return the trace record.
-fn exec_case(case: &Value, dom_max: usize) -> Value {
+fn exec_case(case: &Value, dom_max: usize, steps: bool) -> Value {
     let mut out = serde_json::Map::new();
     out.insert("id".into(), case["id"].clone());
     out.insert("meta".into(), match case.get("meta") { Some(m) if m.is_object() => m.clone(), _ => json!({"_": 0}) });
@@ -46,7 +46,9 @@ fn exec_case(case: &Value, dom_max: usize) -> Value {
         };
         let w = exec::width_of(run);
         let route = run.get("route").and_then(|v| v.as_str()).unwrap_or("string");
-        let (o, ds) = exec::run_one(&html, w, &run["cfg"], route);
+        // step events only for modest widths and the routes that render exactly once
+        let want_steps = steps && w <= 10_000 && !route.starts_with("staged_clone");
+        let (o, ds, st) = if want_steps { exec::run_one_steps(&html, w, &run["cfg"], route) } else { let (o, ds) = exec::run_one(&html, w, &run["cfg"], route); (o, ds, Value::Null) };
         let mut cfg = run["cfg"].clone();
         if !cfg.is_object() { cfg = json!({"deco": "plain", "ops": []}); }
         if cfg.get("ops").is_none() { cfg["ops"] = json!([]); }
@@ -56,6 +58,7 @@ fn exec_case(case: &Value, dom_max: usize) -> Value {
                            "res": exec::outcome_json(o)});
         if let Some(wx) = run.get("wx") { r["wx"] = wx.clone(); r["w"] = json!(-1); }
         if let Some(t) = run.get("tag") { r["tag"] = t.clone(); }
+        if let Some(a) = st.as_array() { if a.len() <= 4000 { r["steps"] = st; } }
         runs_out.push(r);
     }
     out.insert("doms".into(), Value::Array(doms));
@@ -70,6 +73,7 @@ fn cmd_exec(args: &[String]) -> i32 {
     let timeout_ms: u64 = arg_val(args, "--timeout-ms").and_then(|s| s.parse().ok()).unwrap_or(20_000);
     let dom_max: usize = arg_val(args, "--dom-max").and_then(|s| s.parse().ok()).unwrap_or(20_000);
     let journal = arg_val(args, "--journal");
+    let steps_every: usize = arg_val(args, "--steps-every").and_then(|s| s.parse().ok()).unwrap_or(0);
     let append = skip > 0;
     let f = std::fs::OpenOptions::new().create(true).write(true).append(append).truncate(!append).open(outp).expect("open out");
     let out = Arc::new(Mutex::new(BufWriter::new(f)));
@@ -106,7 +110,7 @@ fn cmd_exec(args: &[String]) -> i32 {
             if let Some(j) = &journal { let _ = std::fs::write(j, format!("{}\n", i + 1)); }
             started.store(t0.elapsed().as_millis() as u64 + 1, Ordering::SeqCst);
             let t = Instant::now();
-            let mut rec = exec_case(&case, dom_max);
+            let mut rec = exec_case(&case, dom_max, steps_every > 0 && i % steps_every == 0);
             started.store(0, Ordering::SeqCst);
             rec["ms"] = json!(t.elapsed().as_millis() as u64);
             let mut o = out.lock().unwrap();
